@@ -850,6 +850,13 @@ func runC01(c *caseWriter) (string, bool, map[string]int) {
 		"<td{{if .T}}title=\"{{.A}}\"{{end}}>k</td>", "<td{{template \"attr\" .A}}>k</td>{{define \"attr\"}}title=\"{{.}}\"{{end}}", "<script{{if .T}}x{{end}}>x = \"<!--\";</script>",
 		"<script x=\"y\"</script>{{.A}}", "<title x=\"y\"</title>{{.A}}<b>k</b>", "<STYLE media='m'</style >{{.B}}", "x<title autocorrect=\"x {{.S}}.\"x &amp; y</title>",
 		"<!DOCTYPE {{.A}}><p>k</p>", "<!doctype html {{.A}}>k", "<p>k</p><!DOCTYPE html", "<!DOCTYPE html><p>{{.A}}</p>",
+		// attribute names split over text nodes (D48), names chosen by conditionals followed by further
+		// conditionals (D46, repaired), conditional static prefixes (D47, repaired)
+		"<a title{{/* c */}}/=\"{{.A}}\">k</a>", "<a data-x{{/* c */}}/onclick=\"{{.A}}\">k</a>", "<a title{{if .F}}{{end}}/='{{.A}}'>k</a>", "<iframe src{{/* c */}}doc=\"{{.A}}\"></iframe>",
+		"<a data-x{{with .N}}{{end}}onclick=\"{{.A}}\">k</a>", "<a id{{range .E}}{{end}}/title=\"{{.A}}\" lang=\"{{.B}}\">k</a>", "<b tit{{/* c */}}le=\"{{.A}}\">k</b>", "<b title{{/* c */}} ={{/* d */}} \"{{.A}}\">k</b>",
+		"<a {{if .F}}title{{end}}{{if .T}}{{end}}=\"{{.A}}\">k</a>", "<a {{if .T}}title{{else}}alt{{end}}{{if .F}}{{end}}=\"{{.A}}\">k</a>", "<a {{if .F}}title{{else}}onclick{{end}}{{if .F}}{{end}}=\"{{.A}}\">k</a>",
+		"{{if .T}}<script{{else}}<div{{end}}{{if .T}} {{end}}>{{.A}}</script>", "{{if .F}}<b{{else}}<i{{end}}{{if .T}} {{end}}title=\"{{.A}}\">k", "<a href=\"{{if .T}}{{else}}java{{end}}{{.A}}\">k</a>",
+		"<a href=\"{{if .F}}{{else}}/p/{{end}}{{.A}}\">k</a>", "<a title=\"{{if .F}}{{else}}x{{end}}{{.A}}\">k</a>",
 	} {
 		c01Emit(c, t, "", sh, idx, 3)
 		for _, h := range c01Hostile {
